@@ -64,11 +64,12 @@ def load_findings():
 
 # ------------------------------------------------------------------ worker
 def solve_inprocess(ob, timeout_ms, use_cvc5=True):
+    """z3 E-matching only (short), then z3 with MBQI, then cvc5 on the SMT-LIB text."""
     t0 = time.time()
     res, model, backend, reason = "unknown", None, "z3", ""
-    for mbqi in (False, True):
+    for mbqi, tmo in ((False, min(timeout_ms, 4000)), (True, timeout_ms)):
         s = z3.Solver()
-        s.set("timeout", timeout_ms)
+        s.set("timeout", tmo)
         if not mbqi:
             s.set("smt.mbqi", False)
         for a in ob.assumptions:
@@ -83,7 +84,7 @@ def solve_inprocess(ob, timeout_ms, use_cvc5=True):
             break
         reason = s.reason_unknown()
     if res == "unknown" and use_cvc5:
-        r3, _t, reason3 = smt._solve_cvc5(smt.to_smt2(ob), timeout_ms)
+        r3, _t, reason3 = smt._solve_cvc5(smt.to_smt2(ob), timeout_ms * 3)
         if r3 == "unsat":
             res, backend = "discharged", "cvc5"
         elif r3 == "sat":
@@ -204,6 +205,7 @@ def crosscheck_unit(job):
     sc = sigcases(con)[sc_index]
     n = 0
     fails = []
+    cap = count if con.bounded is None else 10 ** 9
     try:
         for argvals in native.sample_inputs(con, sc, count, seed=seed):
             nr = native.native_eval(con, argvals)
@@ -213,11 +215,12 @@ def crosscheck_unit(job):
             for f in nr.failures:
                 fails.append({"label": f[0], "detail": f[1], "input": repr(argvals)[:500], "observed": nr.outcome,
                               "argvals": _jsonable(argvals)})
-            if n >= count:
+            if n >= cap or len(fails) > 200:
                 break
     except NotImplementedError as e:
         return {"target": target, "case": sc_index, "evaluations": 0, "fails": [], "skipped": str(e)}
-    return {"target": target, "case": sc_index, "evaluations": n, "fails": fails}
+    return {"target": target, "case": sc_index, "evaluations": n, "fails": fails,
+            "bounded": con.bounded}
 
 
 # ------------------------------------------------------------------ property run
@@ -243,15 +246,19 @@ def run_property(pid, tier="quick", seed=0, jobs=None):
             exclusions.setdefault(k["target"], {}).setdefault(k["clause"], []).append(k["case"])
     cons = [c for c in REGISTRY.values() if pid in c.props and not c.trusted]
     jobs_list = []
+    bjobs = []
     for con in cons:
         for i, _sc in enumerate(sigcases(con)):
-            jobs_list.append((con.target, i, pid, tier, exclusions, seed))
+            if con.bounded is not None:
+                bjobs.append((con.target, i, 200 if tier == "quick" else 8000, seed))
+            else:
+                jobs_list.append((con.target, i, pid, tier, exclusions, seed))
     nproc = jobs or min(16, os.cpu_count() or 1)
     results = []
     cross = []
     count = 50 if tier == "quick" else 2000
-    cjobs = [(j[0], j[1], count, seed) for j in jobs_list]
-    if jobs_list:
+    cjobs = [(j[0], j[1], count, seed) for j in jobs_list] + bjobs
+    if cjobs:
         with ProcessPoolExecutor(max_workers=nproc) as ex:
             futs = [ex.submit(verify_unit, j) for j in jobs_list]
             cfuts = [ex.submit(crosscheck_unit, j) for j in cjobs]
@@ -360,6 +367,11 @@ def assemble(pid, tier, seed, cons, results, cross, extras, known, findings, wal
     extra_obl = 0
     extra_dis = 0
     bounded = []
+    for c in cross:
+        if c.get("bounded"):
+            bounded.append({"function": c["target"], "bound": c["bounded"]["scope"], "reason": c["bounded"]["reason"],
+                            "evaluations": c["evaluations"], "failures": len(c["fails"]),
+                            "label": "bounded (not counted as proved)"})
     extra_samples = []
     for e in extras:
         extra_obl += e.get("obligations", 0)
